@@ -311,7 +311,8 @@ def features(case: Case):
         f.append("pluralize")
     if case.ctx:
         f.append("context")
-    if case.pvar == "num":
+    used = [case.pieces[i][0] for i in case.sing + (case.plur or ()) if case.pieces[i][1] == "v"]
+    if "num" in used or any(n == "num" for n, _ in case.headers[case.hkey][1]):
         f.append("num")
     return f
 
